@@ -137,8 +137,9 @@ def fault_sets(tier, starttls):
     steps = STEPS if starttls else ["GREETING", "AUTHRESULT"]
     single = [((st, 0, a),) for st in steps for a in ACTIONS]
     out = [()] + single
+    out += [a + b for a, b in itertools.combinations(single, 2) if a[0][0] != b[0][0]]
     if tier == "thorough":
-        out += [a + b for a, b in itertools.combinations(single, 2) if a[0][0] != b[0][0]]
+        out += [a + b + c for a, b, c in itertools.combinations(single, 3) if len({a[0][0], b[0][0], c[0][0]}) == 3]
     return out
 
 
